@@ -157,7 +157,60 @@ def fallback_index(repo, res, rule="FF"):
     res.check(ok, rule, f"{rule}:check::propagate_fallback_levels:start-level", "top level starts at || index 0", f2.loc())
 
 
+def postorder(repo, res, rule="TOPO"):
+    """Definitions are expanded in the order get_nonterminals_resolution_order returns; resolve_nonterminals substitutes the
+    *current* body of a definition, so a definition must come after everything it refers to.  Structurally: in the DFS, and in
+    each loop that starts it, a vertex is appended to `result` only after the (recursive) traversal of that vertex returned
+    (post-order); the order handed to the expansion loop is that `result`."""
+    f = repo.fn("check::traverse_nonterminal_dependencies_dfs")
+    g = repo.fn("check::get_nonterminals_resolution_order")
+    if f is None or g is None:
+        res.undecided(rule, f"{rule}:check::traverse_nonterminal_dependencies_dfs", "function not found")
+        return
+    n = 0
+    for fn in (f, g):
+        pm = A.parent_map(fn.body)
+        calls = list(P.find_calls(fn.body, names={f.name}))
+        if not calls:
+            res.undecided(rule, f"{rule}:{fn.qname}", f"no call of {f.name}")
+            continue
+        for i, c in enumerate(calls):
+            # the pushes onto the result vector in the same block as this call
+            blk = None
+            cur = A.stmt_of(c, pm)
+            if cur is not None and id(cur) in pm:
+                blk = pm[id(cur)][0]
+            pushes = []
+            if blk is not None and blk["k"] == "Block":
+                for st in blk["stmts"]:
+                    for m in P.find_calls(st, methods={"push"}):
+                        r = m["recv"]
+                        while r["k"] in ("Ref", "Unary"):
+                            r = r["expr"]
+                        if r["k"] == "Path" and r["path"] == "result":
+                            pushes.append(m)
+            n += 1
+            ok = len(pushes) == 1 and A.before(c, pushes[0])
+            res.check(ok, rule, f"{rule}:{fn.qname}:push-after-traversal#{i + 1}", (f"result.push follows the traversal of that vertex (post-order): dependencies precede their users" if ok else
+                      f"{len(pushes)} result.push in the block of the traversal call" + ("; it PRECEDES the call: pre-order puts a definition before the definitions it uses, which are then expanded too late" if pushes and not A.before(c, pushes[0]) else "")), f"{fn.file}:{c['l']}")
+    res.floor(rule, n, 3)
+    # the expansion loop in from_grammar iterates exactly this order
+    fg = repo.fn("check::ValidGrammar::from_grammar")
+    if fg is not None:
+        envs = A.collect_envs(fg)
+        ok = False
+        for lp in A.walk(fg.body):
+            if lp["k"] == "ForLoop" and list(P.find_calls(lp["body"], names={"resolve_nonterminals"})):
+                it = A.show(A.resolve(lp["iter"], envs.get(id(lp))))
+                if "get_nonterminals_resolution_order" in it:
+                    ok = ".rev()" not in it and "sort" not in it
+                    res.check(ok, rule, f"{rule}:check::ValidGrammar::from_grammar:expansion-order", f"definitions are expanded in the order {it[:90]}", f"{fg.file}:{lp['l']}")
+        if not ok:
+            res.check(False, rule, f"{rule}:check::ValidGrammar::from_grammar:expansion-order-found", "no loop that expands definitions over get_nonterminals_resolution_order's result was found", fg.loc())
+
+
 def run(repo, res, tier):
+    postorder(repo, res)
     n_tc = common.run_traversals(repo, res, flows=flows_table())
     res.floor("TC", res.count("TC"), 93)
     res.floor("RP", res.count("RP"), 89)
